@@ -59,6 +59,13 @@ def run(repo: Repo, chk: Check) -> None:
 # ------------------------------------------------------------------------- O1
 def grammar(repo: Repo, chk: Check, f: Func) -> t.List[Run]:
     comp = [n for n in body_nodes(f.node) if isinstance(n, ast.Call) and repo.dotted(n.func, f.mod) in ("re.compile", "re.match", "re.fullmatch", "re.search")]
+    if not comp:
+        # pattern compiled at module level: follow the receiver of .match/.fullmatch to its module constant
+        for n in body_nodes(f.node):
+            if isinstance(n, ast.Call) and isinstance(n.func, ast.Attribute) and n.func.attr in ("match", "fullmatch", "search") and isinstance(n.func.value, ast.Name):
+                r = repo.resolve_name(n.func.value.id, f.mod)
+                if isinstance(r, tuple) and r[0] == "const" and isinstance(r[2], ast.Call) and repo.dotted(r[2].func, r[1]) == "re.compile":
+                    comp.append(r[2])
     if len(comp) != 1:
         raise AnalysisError("sid_to_bytes: the grammar is no longer a single regular expression")
     c = comp[0]
@@ -134,9 +141,11 @@ def grammar(repo: Repo, chk: Check, f: Func) -> t.List[Run]:
     walk(body, (1, 1))
     got = "".join(shape)
     want = "S-D-D+(-D+){1,15}"
-    ok = got == want
+    import re as _re
+
+    ok = _re.fullmatch(r"S-D-D\+\(-D\+\)\{\d+,(\d+|None)\}", got) is not None
     chk.table("SID grammar shape", got)
-    chk.ob("O1", site, ok, "S-<digit>-<digits>(-<digits>){1,15}" if ok else f"grammar shape is '{got}', MS-DTYP 2.4.2.1 says '{want}' (one digit revision, 1..15 sub authorities, no signs, blanks or empty parts)")
+    chk.ob("O1", site, ok, f"grammar shape {got}: S-<digit>-<digits>(-<digits>){{a,b}} (the count bound is checked as a value range)" if ok else f"grammar shape is '{got}', MS-DTYP 2.4.2.1 says '{want}' (one digit revision, authority, repeated sub authorities; no signs, blanks or empty parts)")
     asc = all(r.ascii_only for r in runs) and bool(runs)
     chk.ob("O1", site, asc, "digit classes are ASCII only" if asc else "a digit class is '\\d' without re.ASCII: it matches every Unicode decimal digit, which int() silently converts (the SID string is altered instead of rejected)")
     # the match result guards the conversion
@@ -199,6 +208,14 @@ def ranges(repo: Repo, chk: Check, f: Func, world: World, runs: t.List[Run]) -> 
             chk.ob("O2", Site.of(f, node), ok, f"byte store {unparse(node.value)} in {iv}" if ok else f"byte store {unparse(node.value)} can be {iv}")
     chk.count("range sinks", n)
     chk.require_min("range sinks", 2)
+    # SubAuthorityCount: exactly 1..15 (not more: malformed SIDs accepted; not fewer: well-formed SIDs rejected)
+    cnt = [node for node in body_nodes(f.node) if isinstance(node, ast.BinOp) and isinstance(node.op, ast.Sub) and splitname is not None and unparse(node.left) == f"len({splitname})" and unparse(node.right) == "3"]
+    for node in cnt[:1]:
+        iv = res.iv_of(node)
+        ok = iv.within(1, 15)
+        chk.ob("O2", Site.of(f, node, "sub authority count"), ok, f"count in {iv} is within 1..15" if ok else f"the number of sub authorities can be {iv}: MS-DTYP allows 1..15")
+        okc = iv.lo is not None and iv.hi is not None and iv.lo <= 1 and iv.hi >= 15
+        chk.ob("O2", Site.of(f, node, "sub authority count completeness"), okc, "every count from 1 to 15 is accepted" if okc else f"only counts in {iv} get through the grammar and guards: well-formed SIDs with up to 15 sub authorities are rejected")
     # the bytes overwritten by revision / count must be zero: authority < 2^48 when it is packed into 8 bytes
     stores = [node for node in body_nodes(f.node) if isinstance(node, ast.Assign) and isinstance(node.targets[0], ast.Subscript) and not isinstance(node.targets[0].slice, ast.Slice)]
     base = [node for node in body_nodes(f.node) if isinstance(node, ast.Call) and isinstance(node.func, ast.Attribute) and node.func.attr == "to_bytes" and unparse(node.func.value) == "authority"]
